@@ -27,7 +27,7 @@ from .values import Atom, Ref, SBool, SFloat, SInt, SNum, Tmpl, Unsupported, to_
 class IndSpec:
     def __init__(self, cls, params=None, lets=None, inv=None, inputs=None, helpers=None, prior=None,
                  variants=None, props=None, window=None, ctor=None, extra_pre=None, post=None,
-                 name_kwargs=None, managed=None, hints=None, notes=None):
+                 name_kwargs=None, managed=None, hints=None, notes=None, subs=None):
         self.cls = cls  # qualname of the class
         self.params = params or {}  # name -> (type, constraint src | None)
         self.lets = lets or {}
@@ -44,6 +44,7 @@ class IndSpec:
         self.managed = managed or {}
         self.hints = hints or []
         self.notes = notes or []
+        self.subs = subs or {}  # spec expr -> {role: prior|helper, ghost: {param: src}, parent: spec expr}
 
 
 def sym_param(name, ty):
@@ -112,69 +113,233 @@ def build_indicator_task(spec, variant):
     return builder
 
 
+SPEC_REGISTRY = {}  # class qualname -> IndSpec
+
+
+class Bound:
+    """an IndSpec bound to one instance (the indicator under verification, or one of its helpers)"""
+
+    def __init__(self, ex, st, spec, env, role, inst):
+        self.ex, self.spec, self.env, self.role, self.inst = ex, spec, env, role, inst
+        self.N = env["N"]
+        o = st.heap[inst.oid]
+        self.which = "S" if o.fields.get("_sub_indicator", False) is True else "I"
+        self.children = []
+
+    def clause(self, st, src, j, old=None):
+        v = SpecEval(self.ex, st, dict(self.env, j=SInt(j) if z3.is_expr(j) else j), old).ev(src)
+        return vals.zbool(vals.truthy_term(v, st.heap))
+
+    def contiguity(self, st, j):
+        ser = st.heap[self.env["c"].oid]
+        out = []
+        for xname, (start, kind) in self.spec.inputs.items():
+            X = self.env[xname]
+            s = self.env[start] if isinstance(start, str) and start in self.env else SpecEval(self.ex, st, self.env).ev(start)
+            s_t = to_int_term(s)
+            v = ser.lookup_V(X, j)
+            num = vals.V.is_vnum(v) if kind == "num" else z3.And(vals.V.is_vnum(v), vals.V.isf(v))
+            out.append(z3.And(z3.Implies(j < s_t, vals.V.is_vnone(v)), z3.Implies(j >= s_t, num)))
+        return z3.And(*out) if out else z3.BoolVal(True)
+
+    def inv_items(self, assume_only=False):
+        for label, tup in self.spec.inv.items():
+            if assume_only and len(tup) > 2 and not tup[2].get("assume", True):
+                continue
+            yield label, tup[0], (tup[1] if len(tup) > 1 else None)
+
+
+def bind_spec(ex, st, spec, base_env, inst, role, ghost, parent_env, label_prefix=""):
+    """evaluate parameters of `spec` from the real instance object (and ghost bindings), its lets, and
+    check (sub) or assume (top) its parameter preconditions"""
+    o = st.heap[inst.oid]
+    env = dict(base_env)
+    env["self"] = inst
+    env["N"] = o.fields["_output_name"]
+    for pname in spec.params:
+        if pname in env and role == "top":
+            continue
+        if pname in o.fields:
+            env[pname] = o.fields[pname]
+        elif pname in ghost:
+            env[pname] = SpecEval(ex, st, parent_env).ev(ghost[pname])
+        else:
+            raise Unsupported(f"no binding for parameter {pname} of {spec.cls}")
+    for k, src in spec.lets.items():
+        env[k] = SpecEval(ex, st, env).ev(src)
+    ev = SpecEval(ex, st, env)
+    for label, src in spec.extra_pre.items():
+        if role == "top" or label.startswith("eps"):
+            assume_spec(ex, st, ev.ev(src), f"pre:{label}")
+        else:
+            oblige_spec(ex, st, "pre@sub", f"{label_prefix}{label}", ev.ev(src), None)
+            assume_spec(ex, st, ev.ev(src), f"pre:{label}")
+    for xname, (start, kind) in spec.inputs.items():
+        s = env[start] if isinstance(start, str) and start in env else SpecEval(ex, st, env).ev(start)
+        if role == "top":
+            st.assume(to_int_term(s) >= 0)
+    return Bound(ex, st, spec, env, role, inst)
+
+
+def _short(key):
+    return key if isinstance(key, str) else repr(key)
+
+
+def helper_effect(ex, st, b, start, whole=False):
+    """contract of helper.calculate_index(start) / helper.calculate() at index 0, from the helper class's own
+    (separately proved) step invariant: requires Inv_h below start and the helper's inputs to be well formed up
+    to start; havocs the helper's key at start; ensures Inv_h(start) and that the key is present."""
+    ser = st.heap[b.env["c"].oid]
+    s_t = to_int_term(start)
+    site = ex.ctx.site("helper", _short(b.N))
+    j0 = z3.Int(vals_fresh("jh"))
+    st_q = st.fork()
+    st_q.inst_terms.append(("term", j0))
+    for label, src, _ in b.inv_items(assume_only=True):
+        ex.ctx.oblige(st_q, "pre@call", f"{_short(b.N)}.calculate_index:Inv-below:{label}#{site}",
+                      z3.Implies(z3.And(j0 >= 0, j0 < s_t), b.clause(st_q, src, j0)), None)
+    ex.ctx.oblige(st_q, "pre@call", f"{_short(b.N)}.calculate_index:inputs-well-formed#{site}",
+                  z3.Implies(z3.And(j0 >= 0, j0 <= s_t), b.contiguity(st_q, j0)), None)
+    if whole:
+        ser.havoc_all(b.which, b.N, vals_fresh("hv"))
+    else:
+        ser.havoc_at(b.which, b.N, s_t, vals_fresh("hv"))
+    ser.written_now.add(b.N)
+    st.heap[b.inst.oid].fields["_active_index"] = concretize_int(start)
+    for label, src, _ in b.inv_items():
+        st.assume(b.clause(st, src, s_t))
+    st.assume(ser.has(b.which, b.N, s_t))
+    if whole:
+        # everything the helper computes beyond the candle being processed is computed from
+        # inputs that do not exist yet: those entries are None (and are overwritten later)
+        st.qassumes.append(QAssume(lambda j, ser=ser, b=b, s_t=s_t: z3.Implies(j > s_t, vals.V.is_vnone(ser.lookup_V(b.N, j))), "helper-future-none"))
+    for ch in b.children:
+        o = st.heap[ch.inst.oid]
+        if o.fields.get("_sub_calc_prior", True) is False:
+            helper_effect(ex, st, ch, start, whole)
+
+
+def vals_fresh(base):
+    from .state import fresh_name
+
+    return fresh_name(base)
+
+
+def concretize_int(v):
+    from .values import concretize
+
+    return concretize(v) if not isinstance(v, int) else v
+
+
+def hook_calculate_index(ex, st, args, kwargs, node):
+    b = getattr(ex.ctx, "bindings", {}).get(args[0].oid if isinstance(args[0], Ref) else None)
+    if b is None or b.role == "top":
+        return None
+    start = args[1] if len(args) > 1 else kwargs.get("start_index")
+    end = args[2] if len(args) > 2 else kwargs.get("end_index")
+    if end is not None:
+        d = z3.simplify(to_int_term(end) - to_int_term(start))
+        if not (z3.is_int_value(d) and d.as_long() == 1):
+            raise Unsupported("helper.calculate_index over more than one index")
+
+    def gen():
+        helper_effect(ex, st, b, start)
+        yield st, None
+
+    return gen()
+
+
+def hook_calculate(ex, st, args, kwargs, node):
+    b = getattr(ex.ctx, "bindings", {}).get(args[0].oid if isinstance(args[0], Ref) else None)
+    if b is None or b.role == "top":
+        return None
+
+    def gen():
+        # only reached through `_calculate_sub_indicators` with start_index == 0
+        i = b.env["i"]
+        ex.ctx.oblige(st, "pre@call", f"{_short(b.N)}.calculate:only-at-index-0", to_int_term(i) == 0, node)
+        st.assume(to_int_term(i) == 0)
+        helper_effect(ex, st, b, 0, whole=True)
+        yield st, None
+
+    return gen()
+
+
+HOOKS = {
+    "hexital.core.indicator.Indicator.calculate_index": hook_calculate_index,
+    "hexital.core.indicator.Indicator.calculate": hook_calculate,
+}
+
+
 def run_indicator_task(source, contracts, loops, spec, variant, natives=None, timeout_ms=10000):
     from .exec import Ctx, Exec
     from .solve import check
     from .tasks import TaskResult
     import time, traceback
 
+    variant = dict(variant)
+    mode = variant.pop("mode", "calculate")
     vname = ",".join(f"{k}={v}" for k, v in variant.items())
-    qn = spec.cls + ".calculate-step" + (f"[{vname}]" if vname else "")
+    qn = spec.cls + (".calculate-step" if mode == "calculate" else ".recompute-step") + (f"[{vname}]" if vname else "")
     res = TaskResult(qn)
     res.describe = source.describe(spec.cls + "._calculate_reading")
     ctx = Ctx(source, contracts, loops)
     ctx.func = qn
     ctx.props = list(spec.props)
     ctx.natives = dict(natives or {})
+    ctx.natives.update(HOOKS)
     ctx.raised = []
+    ctx.bindings = {}
     ex = Exec(ctx)
     t0 = time.time()
     try:
-        dm, dc, loop = loop_body_of(source, "hexital.core.indicator.Indicator.calculate", 0)
+        if mode == "calculate":
+            dm, dc, loop = loop_body_of(source, "hexital.core.indicator.Indicator.calculate", 0)
+            fname = "hexital.core.indicator.Indicator.calculate"
+        else:
+            dm, dc, loop = loop_body_of(source, "hexital.core.indicator.Indicator.calculate_index", 0)
+            fname = "hexital.core.indicator.Indicator.calculate_index"
         st0 = State()
         st0.frames.append({"__module__": dm})
         for st, obj, env, i in build_indicator_task(spec, variant)(ex, st0):
             res.variants += 1
             ser = st.heap[env["c"].oid]
-            # lets
-            for k, src in spec.lets.items():
-                env[k] = SpecEval(ex, st, env).ev(src)
-            ev = SpecEval(ex, st, env)
-            for label, src in spec.extra_pre.items():
-                assume_spec(ex, st, ev.ev(src), f"pre:{label}")
-            # inputs: None before the start, numbers from it on
-            for xname, (start, kind) in spec.inputs.items():
-                X = env[xname]
-                s = env[start] if isinstance(start, str) and start in env else SpecEval(ex, st, env).ev(start)
-                s_t = to_int_term(s)
-                st.assume(s_t >= 0)
-
-                def contiguous(j, X=X, s_t=s_t, kind=kind):
-                    v = ser.lookup_V(X, j)
-                    num = vals.V.is_vnum(v) if kind == "num" else z3.And(vals.V.is_vnum(v), vals.V.isf(v))
-                    return z3.Implies(z3.And(j >= 0, j < ser.length),
-                                      z3.And(z3.Implies(j < s_t, vals.V.is_vnone(v)), z3.Implies(j >= s_t, num)))
-
-                st.qassumes.append(QAssume(contiguous, f"input-contiguous:{xname}"))
+            top = bind_spec(ex, st, spec, env, obj, "top", {}, env)
+            env = top.env
+            ctx.bindings[obj.oid] = top
+            bounds = [top]
+            # helper graph: specs of the sub / managed indicators, bound to the real instances
+            for path, info in spec.subs.items():
+                inst = SpecEval(ex, st, env).ev(path)
+                if not isinstance(inst, Ref):
+                    raise Unsupported(f"sub-indicator path {path} does not evaluate to an object")
+                sspec = SPEC_REGISTRY.get(st.heap[inst.oid].cls.qualname)
+                if sspec is None:
+                    raise Unsupported(f"no spec for helper class {st.heap[inst.oid].cls.qualname}")
+                sb = bind_spec(ex, st, sspec, {"c": env["c"], "i": env["i"]}, inst, info.get("role", "prior"),
+                               info.get("ghost", {}), env, label_prefix=f"{path}:")
+                ctx.bindings[inst.oid] = sb
+                parent = info.get("parent")
+                if parent:
+                    pinst = SpecEval(ex, st, env).ev(parent)
+                    ctx.bindings[pinst.oid].children.append(sb)
+                bounds.append(sb)
             N = env["N"]
-            # Inv(j) for j < i ; own key present below i and absent from i on
-            for label, tup in spec.inv.items():
-                src = tup[0]
-                if len(tup) > 2 and not tup[2].get("assume", True):
-                    continue  # goal-only clause: proved at i, not needed as a hypothesis below i
-                fn = (lambda j, src=src: SpecEval(ex, st, dict(env, j=SInt(j))).ev(src))
-                st.qassumes.append(QAssume(lambda j, fn=fn: z3.Implies(z3.And(j >= 0, j < i), vals.zbool(vals.truthy_term(fn(j), st.heap))), f"Inv:{label}"))
-            for label, src in spec.prior.items():
-                fn = (lambda j, src=src: SpecEval(ex, st, dict(env, j=SInt(j))).ev(src))
-                st.qassumes.append(QAssume(lambda j, fn=fn: z3.Implies(z3.And(j >= 0, j <= i), vals.zbool(vals.truthy_term(fn(j), st.heap))), f"Prior:{label}"))
-            top = not st.heap[obj.oid].fields.get("_sub_indicator", False)
-            which = "I" if top else "S"
-            st.qassumes.append(QAssume(lambda j: z3.Implies(z3.And(j >= 0, j < i), ser.has(which, N, j)), "own-present-below"))
-            st.qassumes.append(QAssume(lambda j: z3.Implies(z3.And(j >= i, j < ser.length), z3.And(z3.Not(ser.has("I", N, j)), z3.Not(ser.has("S", N, j)))), "own-absent-from-i"))
-            other = "S" if top else "I"
-            st.qassumes.append(QAssume(lambda j: z3.Implies(z3.And(j >= 0, j < ser.length), z3.Not(ser.has(other, N, j))), "own-key-single-dict"))
+            for b in bounds:
+                lim = (lambda j: z3.And(j >= 0, j <= i)) if b.role == "prior" else (lambda j: z3.And(j >= 0, j < i))
+                for label, src, _ in b.inv_items(assume_only=True):
+                    st.qassumes.append(QAssume(lambda j, b=b, src=src, lim=lim: z3.Implies(lim(j), b.clause(st, src, j)),
+                                               f"Inv[{_short(b.N)}]:{label}"))
+                if b.role == "helper":
+                    st.qassumes.append(QAssume(lambda j, b=b, lim=lim: z3.Implies(lim(j), b.contiguity(st, j)), f"inputs[{_short(b.N)}]"))
+                    st.qassumes.append(QAssume(lambda j, b=b: z3.Implies(z3.And(j > i, j < ser.length), vals.V.is_vnone(ser.lookup_V(b.N, j))), f"future-none[{_short(b.N)}]"))
+                else:
+                    st.qassumes.append(QAssume(lambda j, b=b: z3.Implies(z3.And(j >= 0, j < ser.length), b.contiguity(st, j)), f"inputs[{_short(b.N)}]"))
+            which = top.which
+            if mode == "calculate":
+                st.qassumes.append(QAssume(lambda j: z3.Implies(z3.And(j >= i, j < ser.length), z3.And(z3.Not(ser.has("I", N, j)), z3.Not(ser.has("S", N, j)))), "own-absent-from-i"))
             # frames
-            helpers = [SpecEval(ex, st, env).ev(h) for h in spec.helpers]
+            helpers = [SpecEval(ex, st, env).ev(h) for h in spec.helpers] + [b.N for b in bounds[1:] if b.role == "helper"]
             ser.read_frame = (0, i)
             if spec.window is not None:
                 W = to_int_term(SpecEval(ex, st, env).ev(spec.window))
@@ -185,8 +350,11 @@ def run_indicator_task(source, contracts, loops, spec, variant, natives=None, ti
             ser.written_now = set()
             st.inst_terms.append(("term", i))
             st.inst_terms.append(("term", i - 1))
+            for hk in spec.helpers:
+                pass
             old = st.fork()
-            frame = {"__module__": dm, "__func__": "hexital.core.indicator.Indicator.calculate", "self": obj, "index": SInt(i)}
+            ctx.base_state = old
+            frame = {"__module__": dm, "__func__": fname, "self": obj, "index": SInt(i)}
             st.frames.append(frame)
             for st1, sig in ex.exec_block(loop.body, st):
                 res.paths += 1
@@ -196,10 +364,19 @@ def run_indicator_task(source, contracts, loops, spec, variant, natives=None, ti
                 if sig[0] not in ("next", "continue"):
                     raise Unsupported(f"signal {sig[0]} out of the driver loop body")
                 ser1 = st1.heap[env["c"].oid]
-                for label, tup in spec.inv.items():
-                    src, props = tup[0], tup[1]
-                    ev1 = SpecEval(ex, st1, dict(env, j=SInt(i)), old)
-                    oblige_spec(ex, st1, "inv-preserve", label, ev1.ev(src), loop, props=props or None)
+                for b in bounds:
+                    if b.role == "prior":
+                        continue
+                    pre = "" if b is top else f"helper[{_short(b.N)}]:"
+                    for label, src, props in b.inv_items():
+                        ex.ctx.oblige(st1, "inv-preserve", pre + label, b.clause(st1, src, i, old), loop, props=props or None)
+                    if b.role == "helper":
+                        ex.ctx.oblige(st1, "inv-preserve", pre + "inputs-well-formed", b.contiguity(st1, i), loop)
+                        jf = z3.Int(vals_fresh("jf"))
+                        st_f = st1.fork()
+                        st_f.inst_terms.append(("term", jf))
+                        ex.ctx.oblige(st_f, "inv-preserve", pre + "future-none",
+                                      z3.Implies(z3.And(jf > i, jf < ser1.length), vals.V.is_vnone(ser1.lookup_V(b.N, jf))), loop)
                 ctx.oblige(st1, "inv-preserve", "own-key-written", ser1.has(which, N, i), loop)
     except Unsupported as e:
         res.out_of_reach = f"unsupported: {e}"
